@@ -67,6 +67,7 @@ else:
 
 
 SECTION_TAG = "@section"
+MAX_PAGES_RANGE = 1000  # <pages from=.. to=..> transcludes at most this many pages
 
 
 def get_recursive_tag_parser(tagname, blocknode=False):
@@ -1144,6 +1145,8 @@ class ParseUniq:
             else:
                 base = vlist.get("index", "")
                 base = nshandler.get_fqname(base, page_ns)
+                # the range is taken from the attribute text: bound it, a few digits must not buy unbounded work
+                end_index = min(end_index, start_index + MAX_PAGES_RANGE - 1)
                 pages = [f"{base}/{i}" for i in range(start_index, end_index + 1)]
 
             rawtext = "".join("{{%s}}\n" % x for x in pages)
